@@ -120,35 +120,36 @@ var opPool = []OpDesc{{K: "cmp", I: 1}, {K: "cmp", I: 2}, {K: "cmp", I: 3}, {K: 
 
 // TreeGen configures genNode.
 type TreeGen struct {
-	MaxDepth       int
-	MaxWidth       int
-	Kinds          []string // stack kinds for nested nodes
-	RootKinds      []string
-	Leaf           func(t *rapid.T) Val
-	Conds          bool // conditions as elements
-	CondExprStack  bool // condition expressions may be stacks
-	CondExprCond   bool // ... or conditions
-	InvalidConds   bool // some conditions lack keyword / expression
-	NotAsCondExpr  bool // allow NOT kind directly as condition expression
-	Options        bool // presentation options on nodes
-	Caps           bool
-	IndexOpts      bool
-	Wraps          bool
-	MutexOpt       bool
-	NoNestAfter    bool // SetNoNesting(true) on a random fifth of the nodes AFTER their content is in ("never affects elements already present")
-	ReadOnlyNodes  bool // SetReadOnly(true) on a random sixth of the nodes (stacks and Conditions) after assembly: neutral for every query
-	RejectValidity bool // a rejecting validity closure on a random eighth of the NESTED stack nodes (never the root)
-	OddEncap       bool // some nodes get an over-long (3-string) encapsulation pattern in front of a usable one: accepted and stored, never rendered - only for checks without a renderer model
-	NoOpConds      bool // one Condition in ten was assembled piecemeal without an operator (keyword and expression present)
-	DeepChains     bool // one tree in fifteen holds a chain of 9..14 single-member stacks (paths longer than any fixed small bound)
-	ZooLeaves      bool // one leaf in twelve is a value of an unusual Go type (genZooLeaf): only for checks that treat leaves as opaque
-	EqPolicies     bool // an accepting or rejecting equality closure on a random tenth of the nodes
-	WideRuns       bool // at most one node per tree additionally gets a run of 12..40 plain leaves (not counted against Budget)
-	Ambient        bool // neutral settings (identifier, category, aux, less, accepting closures, logger, mutex) on a random half of the nodes
-	FIFOOpt        bool
-	NilLeaves      bool
-	EmptyStacks    bool
-	Budget         int // max total nodes
+	MaxDepth         int
+	MaxWidth         int
+	Kinds            []string // stack kinds for nested nodes
+	RootKinds        []string
+	Leaf             func(t *rapid.T) Val
+	Conds            bool // conditions as elements
+	CondExprStack    bool // condition expressions may be stacks
+	CondExprCond     bool // ... or conditions
+	InvalidConds     bool // some conditions lack keyword / expression
+	NotAsCondExpr    bool // allow NOT kind directly as condition expression
+	Options          bool // presentation options on nodes
+	Caps             bool
+	IndexOpts        bool
+	Wraps            bool
+	MutexOpt         bool
+	NoNestAfter      bool // SetNoNesting(true) on a random fifth of the nodes AFTER their content is in ("never affects elements already present")
+	ReadOnlyNodes    bool // SetReadOnly(true) on a random sixth of the nodes (stacks and Conditions) after assembly: neutral for every query
+	RejectValidity   bool // a rejecting validity closure on a random eighth of the NESTED stack nodes (never the root)
+	OddEncap         bool // some nodes get an over-long (3-string) encapsulation pattern in front of a usable one: accepted and stored, never rendered - only for checks without a renderer model
+	UnmarshalFailers bool // a failing unmarshal closure on a random tenth of the NESTED nodes (stacks and Conditions)
+	NoOpConds        bool // one Condition in ten was assembled piecemeal without an operator (keyword and expression present)
+	DeepChains       bool // one tree in fifteen holds a chain of 9..14 single-member stacks (paths longer than any fixed small bound)
+	ZooLeaves        bool // one leaf in twelve is a value of an unusual Go type (genZooLeaf): only for checks that treat leaves as opaque
+	EqPolicies       bool // an accepting or rejecting equality closure on a random tenth of the nodes
+	WideRuns         bool // at most one node per tree additionally gets a run of 12..40 plain leaves (not counted against Budget)
+	Ambient          bool // neutral settings (identifier, category, aux, less, accepting closures, logger, mutex) on a random half of the nodes
+	FIFOOpt          bool
+	NilLeaves        bool
+	EmptyStacks      bool
+	Budget           int // max total nodes
 }
 
 // genUncomparable: a leaf whose Go type cannot be compared with == (a slice or a map): code that
@@ -284,6 +285,9 @@ func (st *treeState) stack(t *rapid.T, depth int, kinds []string) Node {
 	if st.g.RejectValidity && depth > 1 && rapid.IntRange(0, 7).Draw(t, "validrej") == 0 {
 		n.ValidRej = true
 	}
+	if st.g.UnmarshalFailers && depth > 1 && rapid.IntRange(0, 9).Draw(t, "umfail") == 0 {
+		n.UmFail = true
+	}
 	return n
 }
 
@@ -365,6 +369,9 @@ func (st *treeState) cond(t *rapid.T, depth int) Node {
 		}
 		e := LeafN(v)
 		n.Expr = &e
+	}
+	if g.UnmarshalFailers && rapid.IntRange(0, 9).Draw(t, "cond-umfail") == 0 {
+		n.UmFail = true
 	}
 	if g.NoOpConds && rapid.IntRange(0, 9).Draw(t, "noop-cond") == 0 {
 		n.Op = OpDesc{K: "nil"}
